@@ -31,7 +31,7 @@ pub fn tracegen(prop: &str, seed: u64, runs: usize) -> Vec<J> {
                 prop,
                 run,
                 s,
-                Knobs { bidir: true, p_c: 0.05, max_virtuals: 1, ..Knobs::rows() },
+                Knobs { bidir: true, p_c: 0.05, max_virtuals: 1, big_consts: true, ..Knobs::rows() },
                 Opt { layouts: LayoutMode::Subset, mode: ValMode::Wild, p_zx: 0.25, many_outputs_in_header: true, ..Opt::default() },
             ),
             "C04" => general_run(
@@ -79,6 +79,7 @@ pub fn tracegen(prop: &str, seed: u64, runs: usize) -> Vec<J> {
                 v
             }
             "C06" => binding_run(prop, run, s),
+            "C11" => mismatch_run(prop, run, s),
             "C07" => width_run(prop, run, s),
             "C08" => expr_run(prop, run, s),
             "C10" => error_run(prop, run, s),
@@ -382,8 +383,14 @@ fn lit(g: &mut Gen) -> i64 {
 
 fn width_run(prop: &str, run: usize, seed: u64) -> Vec<J> {
     let mut rng = StdRng::seed_from_u64(seed);
-    // the run number sweeps the widths so that every tier covers 1..=64 completely
+    // the run number sweeps the widths so that every tier covers 1..=64 completely on every path;
+    // the three signals have different widths, and neither the signal list nor the header is in any fixed order
     let bits = (run - 1) % 64 + 1;
+    let (wi, wd, wo) = match (run / 64) % 3 {
+        0 => (bits, (bits + 20) % 64 + 1, (bits + 41) % 64 + 1),
+        1 => ((bits + 20) % 64 + 1, bits, (bits + 41) % 64 + 1),
+        _ => ((bits + 41) % 64 + 1, (bits + 20) % 64 + 1, bits),
+    };
     let vals: Vec<i64> = (0..4)
         .map(|i| match (run / 64 + i) % 3 {
             0 => BOUNDARY[(run + i * 7) % BOUNDARY.len()],
@@ -394,13 +401,11 @@ fn width_run(prop: &str, run: usize, seed: u64) -> Vec<J> {
             }
         })
         .collect();
-    let supplied = vec![
-        Sig::input("I", bits, Val::N(0)),
-        Sig::bidir("D", bits, Val::Z),
-        Sig::output("O", bits),
-        Sig::output("s", 64),
-    ];
-    let header: Vec<String> = ["I", "D", "D_out", "O", "V"].iter().map(|s| s.to_string()).collect();
+    let mut supplied = vec![Sig::input("I", wi, Val::N(0)), Sig::bidir("D", wd, Val::Z), Sig::output("O", wo), Sig::output("s", 64)];
+    supplied.shuffle(&mut rng);
+    let mut header: Vec<String> = ["I", "D", "D_out", "O", "V"].iter().map(|s| s.to_string()).collect();
+    header.shuffle(&mut rng);
+    let col = |name: &str| header.iter().position(|h| h == name).unwrap();
     let mut prog = vec![Stmt::Declare { name: "V".into(), e: Expr::id("s") }];
     let mut id = 0;
     let mut row = |entries: Vec<Entry>| {
@@ -411,21 +416,22 @@ fn width_run(prop: &str, run: usize, seed: u64) -> Vec<J> {
         let e = Gen::const_of(*v);
         // literal entries can only be non-negative; negative values come through expressions
         let lit = if *v >= 0 { Entry::Num(*v) } else { Entry::Expr(e.clone()) };
-        prog.push(row(vec![lit.clone(), lit.clone(), lit.clone(), lit.clone(), lit.clone()]));
-        prog.push(row(vec![Entry::Expr(e.clone()), Entry::Expr(e.clone()), Entry::Expr(e.clone()), Entry::Expr(e.clone()), Entry::Expr(e.clone())]));
-        // through a variable and arithmetic that wraps
+        prog.push(row(vec![lit.clone(); 5]));
+        prog.push(row(vec![Entry::Expr(e.clone()); 5]));
+        // through a variable (no arithmetic here: overflow behaviour is C08's business)
         prog.push(Stmt::Let { name: "t".into(), e: e.clone() });
-        // (no arithmetic here: overflow behaviour is C08's business)
-        let te = Expr::id("t");
-        prog.push(row(vec![Entry::Expr(te.clone()), Entry::Z, Entry::Expr(te.clone()), Entry::X, Entry::Expr(te)]));
+        let mut es = vec![Entry::Expr(Expr::id("t")); 5];
+        es[col("D")] = Entry::Z;
+        es[col("O")] = Entry::X;
+        prog.push(row(es));
     }
-    let test = Test { header, supplied, prog };
+    let test = Test { header: header.clone(), supplied, prog };
     let layout = choose_layout(Lay::Mixed, seed, &mut rng);
     let printed = print_test(&test.header, &test.prog, &layout);
     let opt = Opt { mode: ValMode::Wild, ..Opt::default() };
     let mut spec = policy_for(&test, &opt, seed, &mut rng, 6);
     spec.mode = ValMode::Wild;
-    let cfg = RunCfg { run, prop: prop.to_string(), own_write: rng.gen_bool(0.5), max_rows: 80, rng_seed: seed, after_none: 0, cfg_note: json!({"bits": bits}) };
+    let cfg = RunCfg { run, prop: prop.to_string(), own_write: rng.gen_bool(0.5), max_rows: 80, rng_seed: seed, after_none: 0, cfg_note: json!({"bits": [wi, wd, wo]}) };
     trace_run(&Prepared { test, printed, layout }, &cfg, make_policy(spec))
 }
 
@@ -529,15 +535,23 @@ fn error_run(prop: &str, run: usize, seed: u64) -> Vec<J> {
     }
     let mut prog = g.program(&plan);
     // one poisoned expression of a random kind
-    let poison = match run % 6 {
+    let poison = match run % 9 {
+        // arithmetic corners that must give a value, not a panic: MIN % -1, MIN / -1, -MIN, MAX + 1, huge shift counts
+        6 => Expr::bin(*["%", "/"].choose(&mut g.rng).unwrap(), Gen::const_of(i64::MIN), Expr::un("-", Expr::Num(1))),
+        7 => match g.rng.gen_range(0..3) {
+            0 => Expr::un("-", Gen::const_of(i64::MIN)),
+            1 => Expr::bin("+", Expr::Num(i64::MAX), g.expr(1)),
+            _ => Expr::bin("*", Expr::Num(i64::MAX), Expr::Num(i64::MAX)),
+        },
+        8 => Expr::bin(*["<<", ">>"].choose(&mut g.rng).unwrap(), g.expr(1), Gen::const_of(*[64i64, 65, -1, -64, 1 << 40, i64::MIN].choose(&mut g.rng).unwrap())),
         0 => Expr::bin("/", g.expr(1), Expr::bin("-", Expr::Num(3), Expr::Num(3))),
         1 => Expr::bin("%", g.expr(1), Expr::Num(0)),
         2 => Expr::id("u"), // assigned only inside a while that never runs; a device output `u` does not exist
-        3 => Expr::call("random", vec![Gen::const_of(*[1i64, 0, -1, -5, i64::MIN].choose(&mut g.rng).unwrap())]),
+        3 => Expr::call("random", vec![Gen::const_of(*[1i64, 1, 0, -1, -5, i64::MIN].choose(&mut g.rng).unwrap())]),
         4 => Expr::call("signExt", vec![Expr::Num(4), g.expr(1)]),
         _ => Expr::bin("+", Expr::Num(1), Expr::bin("/", Expr::Num(7), Expr::bin("&", g.expr(1), Expr::Num(0)))),
     };
-    let needs_u = run % 6 == 2;
+    let needs_u = run % 9 == 2;
     if needs_u {
         // `u` is in scope for the parser (while opens no scope) but never assigned at run time
         prog.insert(0, Stmt::While { cond: Expr::Num(0), body: vec![Stmt::Let { name: "u".into(), e: Expr::Num(1) }] });
@@ -585,5 +599,65 @@ fn error_run(prop: &str, run: usize, seed: u64) -> Vec<J> {
     let opt = Opt { layouts: LayoutMode::Subset, mode: ValMode::Wild, p_zx: 0.1, ..Opt::default() };
     let spec = policy_for(&test, &opt, seed, &mut g.rng, 8);
     let cfg = RunCfg { run, prop: prop.to_string(), own_write: g.rng.gen_bool(0.5), max_rows: 60, rng_seed: seed, after_none: 0, cfg_note: json!({"policy": format!("{:?}", spec)}) };
+    trace_run(&Prepared { test, printed, layout }, &cfg, make_policy(spec))
+}
+
+// ---------------------------------------------------------------------------------------------
+// C11: programs against signal lists that may or may not fit (names, directions, duplicates, omissions, extras)
+
+fn mismatch_run(prop: &str, run: usize, seed: u64) -> Vec<J> {
+    let mut g = Gen::new(seed, Knobs { p_device: 0.3, p_c: 0.15, p_x: 0.05, bidir: true, max_stmts: 8, max_virtuals: 2, max_depth: 2, ..Knobs::control_flow() });
+    let plan = g.plan();
+    let prog = g.program(&plan);
+    let mut supplied = plan.supplied.clone();
+    // zero to two edits of the signal list
+    let n_edits = g.rng.gen_range(0..3);
+    for _ in 0..n_edits {
+        if supplied.is_empty() {
+            break;
+        }
+        let i = g.rng.gen_range(0..supplied.len());
+        match g.rng.gen_range(0..7) {
+            0 => {
+                supplied.remove(i);
+            }
+            1 => {
+                let d = supplied[i].clone();
+                let at = g.rng.gen_range(0..=supplied.len());
+                supplied.insert(at, d);
+            }
+            2 => supplied[i].dir = Dir::In,
+            3 => {
+                supplied[i].dir = Dir::Out;
+                supplied[i].def = Val::X;
+            }
+            4 => {
+                supplied[i].dir = Dir::Bidir;
+                if supplied[i].def == Val::X {
+                    supplied[i].def = Val::N(0);
+                }
+            }
+            5 => supplied[i].name = format!("{}x", supplied[i].name),
+            _ => {
+                // rename to the name of a virtual signal, or add an extra signal
+                if !plan.virtuals.is_empty() && g.rng.gen_bool(0.5) {
+                    supplied[i].name = plan.virtuals[0].clone();
+                } else {
+                    supplied.push(Sig::output("extra", 3));
+                }
+            }
+        }
+    }
+    for s in supplied.iter_mut() {
+        if s.is_in() && s.def == Val::X {
+            s.def = Val::N(1);
+        }
+    }
+    let test = Test { header: plan.header.clone(), supplied, prog };
+    let layout = choose_layout(Lay::Mixed, seed, &mut g.rng);
+    let printed = print_test(&test.header, &test.prog, &layout);
+    let opt = Opt { layouts: LayoutMode::Full, mode: ValMode::Small, ..Opt::default() };
+    let spec = policy_for(&test, &opt, seed, &mut g.rng, 8);
+    let cfg = RunCfg { run, prop: prop.to_string(), own_write: g.rng.gen_bool(0.5), max_rows: 40, rng_seed: seed, after_none: 0, cfg_note: json!({"edits": n_edits}) };
     trace_run(&Prepared { test, printed, layout }, &cfg, make_policy(spec))
 }
